@@ -18,7 +18,8 @@ DEFAULT = dict(
     n_edb=(1, 3), n_idb=(1, 4), max_rules=2, max_atoms=3, max_extra=2,
     p_named=0.3, p_dup=0.35, p_null_fact=0.0,
     kinds=dict(plain=5, distinct=0, func=2, inline=1, aggfunc=0),
-    extras=dict(cmp=3, assign=3, inc=2, alt=2, neg=0, aggexpr=0, filt_inc=1),
+    extras=dict(cmp=3, assign=3, inc=2, alt=2, neg=0, aggexpr=0, filt_inc=1,
+                impl=0),
     p_list=0.25, p_rec=0.2, p_if=0.2, p_pcall=0.35, p_arith=0.5,
     p_expr_arg=0.15, p_const_arg=0.2, p_join=0.5,
     agg_ops_n=['Sum', 'Min', 'Max', 'Count', 'List', 'Set'],
@@ -46,6 +47,14 @@ AGG = Profile(
     extras=dict(cmp=2, assign=2, inc=1, alt=1, neg=3, aggexpr=4, filt_inc=1),
     p_null_fact=0.15, p_argminmax=0.25, p_nested_agg=0.3, p_clash_names=0.5)
 
+
+# C11: every shorthand-bearing construct
+SUGAR = Profile(
+    kinds=dict(plain=4, distinct=3, func=3, inline=1, aggfunc=3),
+    extras=dict(cmp=2, assign=3, inc=3, alt=2, neg=3, aggexpr=3, filt_inc=1,
+                impl=2),
+    p_named=0.6, p_argminmax=0.15, p_nested_agg=0.2, p_clash_names=0.2,
+    p_pcall=0.6)
 
 # C07 uses the aggregation profile without null facts (the excluded shapes of
 # C02's known findings would only repeat here).
@@ -374,6 +383,20 @@ class Gen:
         body.append(Cmp(self.Cond(sub_env, 1)))
       self.Exit()
       return [Neg(body)]
+    if kind == 'impl' and self.Materialised():
+      # A => B, i.e. ~(A, ~B)
+      self.features.add('implication')
+      sub_env = dict(env)
+      self.Enter()
+      a = [self.AtomOver(r.choice(self.Materialised()), sub_env)]
+      inner_env = dict(sub_env)
+      self.Enter()
+      b = [self.AtomOver(r.choice(self.Materialised()), inner_env)]
+      if r.random() < 0.3:
+        b.append(Cmp(self.Cond(inner_env, 1)))
+      self.Exit()
+      self.Exit()
+      return [Neg(a + [Neg(b)])]
     if kind == 'aggexpr' and self.Materialised():
       e, t = self.AggExpr(env, depth)
       v = self.Fresh(env)
